@@ -397,6 +397,8 @@ func (r *Rig) goCall(c *RigClient, kind, tok string, plan Plan, preCancelled boo
 			p.Ch, p.Err = c.C.OpenSub(ctx, tok, plan)
 		case "mismatch":
 			p.Ch, p.Err = c.C.Mismatch(ctx, tok, plan)
+		case "rawbad":
+			p.Res, p.Err = c.C.RawBad(ctx, jsonrpc.RawParams(`["`+tok+`", {"gate":`))
 		}
 	}()
 	return p
